@@ -1,6 +1,7 @@
 //! Reference models. Nothing in here uses an xot type.
 
 pub mod adoc;
+pub mod forest;
 pub mod scope;
 
 pub use adoc::*;
